@@ -1,6 +1,7 @@
 mod c02;
 mod c04;
 mod c11;
+mod c11e2e;
 mod c12;
 mod c13serve;
 mod c14;
@@ -72,6 +73,13 @@ fn main() {
         std::process::exit(persist::child_main(&args[2..]));
     }
     c12::init_role_configs();
+    if args[1] == "debug-e2e" {
+        worterbuch::logging::init().ok();
+        let sc = c11e2e::scenario();
+        let h: Vec<u16> = args[2..].iter().filter_map(|a| a.parse().ok()).collect();
+        println!("{:?}", sc.run(&h));
+        return;
+    }
     mc::util::install_quiet_panic_hook();
     let property = args[1].as_str();
     let known = Known::load();
@@ -115,12 +123,20 @@ fn main() {
             "C11",
             &tier,
             "model_checking",
-            vec![(
-                "replication".into(),
-                Box::new(c11::scenario(known.open_for("C11"), if tier == "thorough" { 2 } else { 1 })),
-                Tiered { quick: lim(6, 3, true, 45), thorough: lim(9, 5, true, 600) },
-                "graph",
-            )],
+            vec![
+                (
+                    "replication".into(),
+                    Box::new(c11::scenario(known.open_for("C11"), if tier == "thorough" { 2 } else { 1 })),
+                    Tiered { quick: lim(6, 3, true, 45), thorough: lim(9, 5, true, 600) },
+                    "graph",
+                ),
+                (
+                    "end-to-end".into(),
+                    Box::new(c11e2e::scenario()),
+                    Tiered { quick: lim(3, 2, false, 40), thorough: lim(4, 3, false, 500) },
+                    "tree",
+                ),
+            ],
             &[
                 "component level: the real branch bodies of the leader loop and of the follower are called one event at a time; the leader loop's biased priority is honoured (pending grave-goods/last-will events are forwarded before the next join or request), so no explored schedule is one the real loop cannot produce",
                 "what travels over the TCP sync connection is passed through the real JSON encoding of LeaderSyncMessage; the socket itself (ordered byte stream) is not part of the exploration",
@@ -363,9 +379,14 @@ fn main() {
                 Box::new(props_core::c07(&known, tier == "thorough")),
                 Tiered { quick: lim(6, 3, true, 40), thorough: lim(8, 4, true, 600) },
                 "graph",
+            ), (
+                "locks-at-session-end".into(),
+                Box::new(props_core::c07_locks(&known)),
+                Tiered { quick: lim(7, 3, true, 30), thorough: lim(10, 5, true, 400) },
+                "graph",
             )],
             CORE_ASSUMPTIONS,
-            "every history of connect, grave-goods/last-will (re-)registration, user writes, subscriptions, publish streams, locks and disconnect up to the completed depth, de-duplicated by a complete state snapshot; distinct_nontrivial counts distinct (request kind, answer class) pairs",
+            "second scenario: every sequence of lock/acquireLock/releaseLock on two keys, connect and disconnect by two clients (plus one grave-goods registration and one covered write), so that the ending session's lock bookkeeping holds stale, duplicate and queued entries before the locks it really holds; first scenario: every history of connect, grave-goods/last-will (re-)registration, user writes, subscriptions, publish streams, locks and disconnect up to the completed depth, de-duplicated by a complete state snapshot; distinct_nontrivial counts distinct (request kind, answer class) pairs",
         ),
         "C08" => run_scenarios(
             "C08",
